@@ -152,6 +152,19 @@ V_C04(S, e, T, aux) ==
                        "C04.baddebt_partial")
    ELSE {})
   \cup
+  \* an opposite OpenPosition that closes the whole position and opens nothing (the remainder is
+  \* dropped) is a whole close: same payout, same bad-debt rule
+  (IF EngOp(e, "open_position") /\ e.res.ok /\ e.tx.a.vamm \in Vs(S) /\ e.tx.s \in Traders
+      /\ Held(PosOf(S, e.tx.a.vamm, e.tx.s)) /\ ~Held(PosOf(T, e.tx.a.vamm, e.tx.s))
+      /\ Len(e.swaps) = 1 /\ e.swaps[1].type = "output"
+   THEN LET v == e.tx.a.vamm
+            t == e.tx.s
+            p == PosOf(S, v, t)
+            equity == p.margin + ClosePnl(p, SwapQuote(e)) - OwedG(aux, S, v, t, p)
+        IN Tag(equity >= 0, "C04.baddebt_reverse_close")
+           \cup Tag(equity < 0 \/ Sent(e, "engine", t) = equity, "C04.payout_reverse_close")
+   ELSE {})
+  \cup
   (IF e.kind = "tx" /\ e.tx.c = "engine"
       /\ e.tx.m \in {"open_position", "close_position", "deposit_margin", "withdraw_margin"}
    THEN Tag(S.bal["ifund"] - T.bal["ifund"] <= Max(0, T.eng.st.bad_debt - S.eng.st.bad_debt),
@@ -165,6 +178,9 @@ A_C04(S, e, T, aux) ==
           \cup (IF ClosePnl(p, SwapQuote(e)) < 0 THEN {"loss"} ELSE {"profit"})
           \cup (IF T.eng.st.bad_debt # S.eng.st.bad_debt THEN {"shortfall"} ELSE {})
   ELSE IF EngOp(e, "close_position") /\ e.res.err = "bad_debt" THEN {"rejected_bad_debt"}
+  ELSE IF EngOp(e, "open_position") /\ e.res.ok /\ e.tx.a.vamm \in Vs(S) /\ e.tx.s \in Traders
+          /\ Held(PosOf(S, e.tx.a.vamm, e.tx.s)) /\ ~Held(PosOf(T, e.tx.a.vamm, e.tx.s))
+          /\ Len(e.swaps) = 1 /\ e.swaps[1].type = "output" THEN {"reverse_close"}
   ELSE {}
 
 (* C05 -- trader actions never leave the trader under-margined *)
